@@ -5,8 +5,8 @@
   * `Evt`, `Tgt`: "for all large enough fuel the target grammar answers `r`".
   * `SimAt`: one expression of a source semantics is simulated by an expression of the target
     grammar, in states whose atomicity flag is `a`.
-  * cross-grammar congruence lemmas for every helper of `L0.step` (`ruleApply_sim`, `skip_sim`,
-    `seqL_sim`, `choiceL_sim`, `repLoop_sim`) — the analogue of `Lemmas/Mono.lean` for two
+  * cross-grammar congruence lemmas for every helper of `L0.step` (`ruleApply_simO`, `skip_simO`,
+    `seqL_simO`, `choiceL_simO`, `repLoop_simO`) — the analogue of `Lemmas/Mono.lean` for two
     grammars and two (related) expressions.
 -/
 import PestModel.Lemmas.Mono
@@ -22,7 +22,7 @@ variable (g : Grammar) (inp : Input)
 
 def AP (rec : Sem0) : Prop := ∀ e s s' ps, rec e s = .ok s' ps → s'.atomic = s.atomic
 
-theorem ruleWrap_atomic (name : String) (mod : Nat) (s s' s'' : S0) (ps ps' : List Pair)
+theorem ruleWrap_atomicO (name : String) (mod : Nat) (s s' s'' : S0) (ps ps' : List Pair)
     (h : ruleWrap name mod s s' ps = .ok s'' ps') : s''.atomic = s.atomic := by
   unfold ruleWrap at h
   by_cases hm : hasBit mod SILENT = true
@@ -31,16 +31,16 @@ theorem ruleWrap_atomic (name : String) (mod : Nat) (s s' s'' : S0) (ps ps' : Li
   · simp only [hm, Bool.false_eq_true, ↓reduceIte, R0.ok.injEq] at h
     rw [← h.1]
 
-theorem ruleApply_atomic (rec : Sem0) (name : String) (mod : Nat) (body : Expr) (s s' : S0)
+theorem ruleApply_atomicO (rec : Sem0) (name : String) (mod : Nat) (body : Expr) (s s' : S0)
     (ps : List Pair) (h : ruleApply rec name mod body s = .ok s' ps) : s'.atomic = s.atomic := by
   unfold ruleApply at h
   cases hb : rec body { s with atomic := ruleAtomic name mod s.atomic } with
-  | ok s1 ps1 => rw [hb] at h; exact ruleWrap_atomic _ _ _ _ _ _ _ h
+  | ok s1 ps1 => rw [hb] at h; exact ruleWrap_atomicO _ _ _ _ _ _ _ h
   | fail => rw [hb] at h; simp at h
   | oof => rw [hb] at h; simp at h
   | stuck => rw [hb] at h; simp at h
 
-theorem trySkip_atomic (rec : Sem0) (r : Option Rule) (s s' : S0) (ps : List Pair)
+theorem trySkip_atomicO (rec : Sem0) (r : Option Rule) (s s' : S0) (ps : List Pair)
     (h : trySkip rec r s = .matched s' ps) : s'.atomic = s.atomic := by
   unfold trySkip at h
   cases r with
@@ -51,12 +51,12 @@ theorem trySkip_atomic (rec : Sem0) (r : Option Rule) (s s' : S0) (ps : List Pai
     | ok s1 ps1 =>
       rw [ha] at h
       simp only [Try0.matched.injEq] at h
-      rw [← h.1]; exact ruleApply_atomic _ _ _ _ _ _ _ ha
+      rw [← h.1]; exact ruleApply_atomicO _ _ _ _ _ _ _ ha
     | fail => rw [ha] at h; simp at h
     | oof => rw [ha] at h; simp at h
     | stuck => rw [ha] at h; simp at h
 
-theorem skipLoop_atomic (rec : Sem0) (ws cm : Option Rule) :
+theorem skipLoop_atomicO (rec : Sem0) (ws cm : Option Rule) :
     ∀ (k : Nat) (s : S0) (acc : List Pair) (s' : S0) (ps : List Pair),
       skipLoop rec ws cm k s acc = .ok s' ps → s'.atomic = s.atomic := by
   intro k
@@ -68,7 +68,7 @@ theorem skipLoop_atomic (rec : Sem0) (ws cm : Option Rule) :
     cases h1 : trySkip rec ws s with
     | matched s1 ps1 =>
       rw [h1] at h
-      rw [ih _ _ _ _ h, trySkip_atomic _ _ _ _ _ h1]
+      rw [ih _ _ _ _ h, trySkip_atomicO _ _ _ _ _ h1]
     | stop r => rw [h1] at h; simp only [] at h; cases r <;> simp at h
                 all_goals (exact absurd h1 (by
                   unfold trySkip; cases ws with
@@ -80,7 +80,7 @@ theorem skipLoop_atomic (rec : Sem0) (ws cm : Option Rule) :
       cases h2 : trySkip rec cm s with
       | matched s1 ps1 =>
         rw [h2] at h
-        rw [ih _ _ _ _ h, trySkip_atomic _ _ _ _ _ h2]
+        rw [ih _ _ _ _ h, trySkip_atomicO _ _ _ _ _ h2]
       | stop r => rw [h2] at h; simp only [] at h; cases r <;> simp at h
                   all_goals (exact absurd h2 (by
                     unfold trySkip; cases cm with
@@ -88,23 +88,23 @@ theorem skipLoop_atomic (rec : Sem0) (ws cm : Option Rule) :
                     | some w => simp only []; cases ruleApply rec w.name w.mod w.body s <;> simp))
       | no => rw [h2] at h; simp only [R0.ok.injEq] at h; rw [← h.1]
 
-theorem skip_atomic (rec : Sem0) (k : Nat) (s s' : S0) (ps : List Pair)
+theorem skip_atomicO (rec : Sem0) (k : Nat) (s s' : S0) (ps : List Pair)
     (h : skip g rec k s = .ok s' ps) : s'.atomic = s.atomic := by
   unfold skip at h
   by_cases ha : s.atomic = true
   · simp only [ha, ↓reduceIte, R0.ok.injEq] at h; rw [← h.1]
   · simp only [ha, Bool.false_eq_true, ↓reduceIte] at h
     cases hf : g.fusedSkip with
-    | some r => rw [hf] at h; exact ruleApply_atomic _ _ _ _ _ _ _ h
+    | some r => rw [hf] at h; exact ruleApply_atomicO _ _ _ _ _ _ _ h
     | none =>
       rw [hf] at h
       simp only [] at h
       by_cases hn : ((g.lookup "WHITESPACE").isNone && (g.lookup "COMMENT").isNone) = true
       · simp only [hn, ↓reduceIte, R0.ok.injEq] at h; rw [← h.1]
       · simp only [hn, Bool.false_eq_true, ↓reduceIte] at h
-        exact skipLoop_atomic _ _ _ _ _ _ _ _ h
+        exact skipLoop_atomicO _ _ _ _ _ _ _ _ h
 
-theorem seqL_atomic {rec : Sem0} (h : AP rec) (k : Nat) :
+theorem seqL_atomicO {rec : Sem0} (h : AP rec) (k : Nat) :
     ∀ (es : List Expr) (s : S0) (acc : List Pair) (s' : S0) (ps : List Pair),
       seqL g rec k es s acc = .ok s' ps → s'.atomic = s.atomic := by
   intro es
@@ -130,9 +130,9 @@ theorem seqL_atomic {rec : Sem0} (h : AP rec) (k : Nat) :
         | fail => rw [hsk] at hh; simp only [] at hh; rw [ih _ _ _ _ hh, a1]
         | ok s2 tps =>
           rw [hsk] at hh; simp only [] at hh
-          rw [ih _ _ _ _ hh, skip_atomic g _ _ _ _ _ hsk, a1]
+          rw [ih _ _ _ _ hh, skip_atomicO g _ _ _ _ _ hsk, a1]
 
-theorem choiceL_atomic {rec : Sem0} (h : AP rec) :
+theorem choiceL_atomicO {rec : Sem0} (h : AP rec) :
     ∀ (es : List Expr) (s : S0) (s' : S0) (ps : List Pair),
       choiceL rec es s = .ok s' ps → s'.atomic = s.atomic := by
   intro es
@@ -147,7 +147,7 @@ theorem choiceL_atomic {rec : Sem0} (h : AP rec) :
     | stuck => rw [he] at hh; simp at hh
     | ok s1 ps1 => rw [he] at hh; simp only [R0.ok.injEq] at hh; rw [← hh.1]; exact h _ _ _ _ he
 
-theorem repLoop_atomic {rec : Sem0} (h : AP rec) (e : Expr) (kk : Nat) :
+theorem repLoop_atomicO {rec : Sem0} (h : AP rec) (e : Expr) (kk : Nat) :
     ∀ (k : Nat) (first : Bool) (s : S0) (acc : List Pair) (s' : S0) (ps : List Pair),
       repLoop g rec e k kk first s acc = .ok s' ps → s'.atomic = s.atomic := by
   intro k
@@ -165,7 +165,7 @@ theorem repLoop_atomic {rec : Sem0} (h : AP rec) (e : Expr) (kk : Nat) :
         by_cases hf : first = true
         · simp only [hf, ↓reduceIte, R0.ok.injEq] at ha; rw [← ha.1]
         · simp only [hf, Bool.false_eq_true, ↓reduceIte] at ha
-          exact skip_atomic g _ _ _ _ _ ha
+          exact skip_atomicO g _ _ _ _ _ ha
       rw [ha] at hh
       simp only [] at hh
       cases he : rec e s1 with
@@ -183,16 +183,16 @@ theorem step_AP {rec : Sem0} (h : AP rec) (k : Nat) : AP (step g inp k rec) := b
     simp only [step, callRule] at hh
     cases hl : g.lookup name with
     | none => rw [hl] at hh; simp at hh
-    | some r => rw [hl] at hh; exact ruleApply_atomic _ _ _ _ _ _ _ hh
-  | rule name mod sm body => exact ruleApply_atomic _ _ _ _ _ _ _ hh
-  | seq es => exact seqL_atomic g h k _ _ _ _ _ hh
-  | choice es => exact choiceL_atomic h _ _ _ _ hh
-  | rep e => exact repLoop_atomic g h e k k true s [] s' ps hh
-  | rep1 e => exact seqL_atomic g h k _ _ _ _ _ hh
-  | repExact e n => exact seqL_atomic g h k _ _ _ _ _ hh
-  | repMin e n => exact seqL_atomic g h k _ _ _ _ _ hh
-  | repMax e n => exact seqL_atomic g h k _ _ _ _ _ hh
-  | repMinMax e m n => exact seqL_atomic g h k _ _ _ _ _ hh
+    | some r => rw [hl] at hh; exact ruleApply_atomicO _ _ _ _ _ _ _ hh
+  | rule name mod sm body => exact ruleApply_atomicO _ _ _ _ _ _ _ hh
+  | seq es => exact seqL_atomicO g h k _ _ _ _ _ hh
+  | choice es => exact choiceL_atomicO h _ _ _ _ hh
+  | rep e => exact repLoop_atomicO g h e k k true s [] s' ps hh
+  | rep1 e => exact seqL_atomicO g h k _ _ _ _ _ hh
+  | repExact e n => exact seqL_atomicO g h k _ _ _ _ _ hh
+  | repMin e n => exact seqL_atomicO g h k _ _ _ _ _ hh
+  | repMax e n => exact seqL_atomicO g h k _ _ _ _ _ hh
+  | repMinMax e m n => exact seqL_atomicO g h k _ _ _ _ _ hh
   | opt e =>
     simp only [step] at hh
     cases he : rec e s with
@@ -635,18 +635,18 @@ theorem Tgt.of_step {e' : Expr} {s : S0} {r : R0}
 /-- `e` under the source semantics `rec` is simulated by `e'` in the target grammar, from
     states whose atomicity flag is `a` -/
 def SimAt (rec : Sem0) (a : Bool) (e e' : Expr) : Prop :=
-  ∀ s, s.atomic = a → rec e s ≠ .oof → Tgt inp g' e' s (rec e s)
+  ∀ s, s.atomic = a → s.pos ≤ inp.size → rec e s ≠ .oof → Tgt inp g' e' s (rec e s)
 
 /-! ### cross-grammar congruence of the helpers -/
 
-theorem ruleApply_sim {rec : Sem0} (name : String) (mod : Nat) (body body' : Expr) (s : S0)
-    (hb : SimAt inp g' rec (ruleAtomic name mod s.atomic) body body')
+theorem ruleApply_simO {rec : Sem0} (name : String) (mod : Nat) (body body' : Expr) (s : S0)
+    (hb : SimAt inp g' rec (ruleAtomic name mod s.atomic) body body') (hp : s.pos ≤ inp.size)
     (hne : ruleApply rec name mod body s ≠ .oof) :
     Evt (fun n => ruleApply (run g' inp n) name mod body' s = ruleApply rec name mod body s) := by
   unfold ruleApply at hne ⊢
   have h1 : rec body { s with atomic := ruleAtomic name mod s.atomic } ≠ .oof := by
     intro e; rw [e] at hne; exact hne rfl
-  refine (hb _ rfl h1).mono ?_
+  refine (hb { s with atomic := ruleAtomic name mod s.atomic } rfl hp h1).mono ?_
   intro n hn
   rw [hn]
 
@@ -663,8 +663,8 @@ theorem RuleSim.isNone {rec : Sem0} {r r' : Option Rule} (h : RuleSim inp g' rec
     r'.isNone = r.isNone := by
   cases r <;> cases r' <;> simp_all [RuleSim]
 
-theorem trySkip_sim {rec : Sem0} (r r' : Option Rule) (s : S0) (hr : RuleSim inp g' rec r r')
-    (hne : trySkip rec r s ≠ .stop .oof) :
+theorem trySkip_simO {rec : Sem0} (r r' : Option Rule) (s : S0) (hr : RuleSim inp g' rec r r')
+    (hp : s.pos ≤ inp.size) (hne : trySkip rec r s ≠ .stop .oof) :
     Evt (fun n => trySkip (run g' inp n) r' s = trySkip rec r s) := by
   cases r with
   | none =>
@@ -680,27 +680,27 @@ theorem trySkip_sim {rec : Sem0} (r r' : Option Rule) (s : S0) (hr : RuleSim inp
       simp only [] at hne ⊢
       have : ruleApply rec x.name x.mod x.body s ≠ .oof := by
         intro e; rw [e] at hne; exact hne rfl
-      refine (ruleApply_sim inp g' x.name x.mod x.body x'.body s (h3 _) this).mono ?_
+      refine (ruleApply_simO inp g' x.name x.mod x.body x'.body s (h3 _) hp this).mono ?_
       intro n hn
       rw [h1, h2, hn]
 
-theorem skipLoop_sim {rec : Sem0} (ws ws' cm cm' : Option Rule)
+theorem skipLoop_simO {rec : Sem0} (hpb : PB inp rec) (ws ws' cm cm' : Option Rule)
     (hw : RuleSim inp g' rec ws ws') (hc : RuleSim inp g' rec cm cm') :
-    ∀ (k : Nat) (s : S0) (acc : List Pair), skipLoop rec ws cm k s acc ≠ .oof →
+    ∀ (k : Nat) (s : S0) (acc : List Pair), s.pos ≤ inp.size → skipLoop rec ws cm k s acc ≠ .oof →
       Evt2 (fun n k' => skipLoop (run g' inp n) ws' cm' k' s acc = skipLoop rec ws cm k s acc) := by
   intro k
   induction k with
-  | zero => intro s acc hne; exact absurd rfl hne
+  | zero => intro s acc _ hne; exact absurd rfl hne
   | succ k ih =>
-    intro s acc hne
+    intro s acc hp hne
     simp only [skipLoop] at hne
     have h1 : trySkip rec ws s ≠ .stop .oof := by
       intro e; rw [e] at hne; exact hne rfl
-    obtain ⟨N1, e1⟩ := trySkip_sim inp g' ws ws' s hw h1
+    obtain ⟨N1, e1⟩ := trySkip_simO inp g' ws ws' s hw hp h1
     cases ht : trySkip rec ws s with
     | matched s1 ps =>
       rw [ht] at hne e1
-      obtain ⟨N2, e2⟩ := ih s1 _ hne
+      obtain ⟨N2, e2⟩ := ih s1 _ (trySkip_pos inp hpb _ _ _ _ hp ht) hne
       refine ⟨N1 + N2 + 1, fun n k' hn hk => ?_⟩
       obtain ⟨k'', rfl⟩ : ∃ m, k' = m + 1 := ⟨k' - 1, by omega⟩
       simp only [skipLoop, ht, e1 n (by omega)]
@@ -715,11 +715,11 @@ theorem skipLoop_sim {rec : Sem0} (ws ws' cm cm' : Option Rule)
       simp only [] at hne
       have h2 : trySkip rec cm s ≠ .stop .oof := by
         intro e; rw [e] at hne; exact hne rfl
-      obtain ⟨M1, f1⟩ := trySkip_sim inp g' cm cm' s hc h2
+      obtain ⟨M1, f1⟩ := trySkip_simO inp g' cm cm' s hc hp h2
       cases ht2 : trySkip rec cm s with
       | matched s1 ps =>
         rw [ht2] at hne f1
-        obtain ⟨N2, e2⟩ := ih s1 _ hne
+        obtain ⟨N2, e2⟩ := ih s1 _ (trySkip_pos inp hpb _ _ _ _ hp ht2) hne
         refine ⟨N1 + M1 + N2 + 1, fun n k' hn hk => ?_⟩
         obtain ⟨k'', rfl⟩ : ∃ m, k' = m + 1 := ⟨k' - 1, by omega⟩
         simp only [skipLoop, ht, ht2, e1 n (by omega), f1 n (by omega)]
@@ -737,14 +737,14 @@ theorem skipLoop_sim {rec : Sem0} (ws ws' cm cm' : Option Rule)
 
 /-- implicit trivia of the source (`rec`, budget `k`) is simulated by the target's -/
 def SkipSim (rec : Sem0) (k : Nat) : Prop :=
-  ∀ s, skip g rec k s ≠ .oof → Evt (fun n => skip g' (run g' inp n) n s = skip g rec k s)
+  ∀ s, s.pos ≤ inp.size → skip g rec k s ≠ .oof → Evt (fun n => skip g' (run g' inp n) n s = skip g rec k s)
 
-theorem skip_sim {rec : Sem0} (k : Nat)
+theorem skip_simO {rec : Sem0} (hpb : PB inp rec) (k : Nat)
     (hf : RuleSim inp g' rec g.fusedSkip g'.fusedSkip)
     (hw : RuleSim inp g' rec (g.lookup "WHITESPACE") (g'.lookup "WHITESPACE"))
     (hc : RuleSim inp g' rec (g.lookup "COMMENT") (g'.lookup "COMMENT")) :
     SkipSim g inp g' rec k := by
-  intro s hne
+  intro s hp hne
   unfold skip at hne ⊢
   by_cases ha : s.atomic = true
   · simp only [ha, ↓reduceIte]; exact Evt.const trivial
@@ -758,7 +758,7 @@ theorem skip_sim {rec : Sem0} (k : Nat)
         obtain ⟨h1, h2, h3⟩ := hf
         rw [hfs] at hne
         simp only [] at hne ⊢
-        refine (ruleApply_sim inp g' x.name x.mod x.body x'.body s (h3 _) hne).mono ?_
+        refine (ruleApply_simO inp g' x.name x.mod x.body x'.body s (h3 _) hp hne).mono ?_
         intro n hn
         rw [h1, h2, hn]
     | none =>
@@ -771,7 +771,7 @@ theorem skip_sim {rec : Sem0} (k : Nat)
         by_cases hn : ((g.lookup "WHITESPACE").isNone && (g.lookup "COMMENT").isNone) = true
         · simp only [hn, ↓reduceIte]; exact Evt.const trivial
         · simp only [hn, Bool.false_eq_true, ↓reduceIte] at hne ⊢
-          exact (skipLoop_sim inp g' _ _ _ _ hw hc k s [] hne).diag
+          exact (skipLoop_simO inp g' hpb _ _ _ _ hw hc k s [] hp hne).diag
 
 /-- pointwise relation of two lists (core has no `List.Forall₂`) -/
 inductive All2 {α β : Type} (R : α → β → Prop) : List α → List β → Prop
@@ -827,18 +827,19 @@ theorem All2.append {α β} {R : α → β → Prop} {l1 l2 : List α} {l1' l2' 
   | nil => exact h2
   | cons hab _ ih => exact .cons hab ih
 
-theorem seqL_sim {rec : Sem0} (hap : AP rec) (k : Nat) (hsk : SkipSim g inp g' rec k) (a : Bool) :
+theorem seqL_simO {rec : Sem0} (hap : AP rec) (hpb : PB inp rec) (k : Nat) (hsk : SkipSim g inp g' rec k)
+    (a : Bool) :
     ∀ (es es' : List Expr), All2 (SimAt inp g' rec a) es es' →
-      ∀ (s : S0) (acc : List Pair), s.atomic = a → seqL g rec k es s acc ≠ .oof →
+      ∀ (s : S0) (acc : List Pair), s.atomic = a → s.pos ≤ inp.size → seqL g rec k es s acc ≠ .oof →
         Evt (fun n => seqL g' (run g' inp n) n es' s acc = seqL g rec k es s acc) := by
   intro es es' hes
   induction hes with
-  | nil => intro s acc _ _; exact Evt.const rfl
+  | nil => intro s acc _ _ _; exact Evt.const rfl
   | @cons e e' rest rest' he hrest ih =>
-    intro s acc ha hne
+    intro s acc ha hp hne
     simp only [seqL] at hne ⊢
     have h1 : rec e s ≠ .oof := by intro x; rw [x] at hne; exact hne rfl
-    have t1 := he s ha h1
+    have t1 := he s ha hp h1
     rw [hrest.isEmpty]
     cases hr : rec e s with
     | oof => exact absurd hr h1
@@ -848,12 +849,13 @@ theorem seqL_sim {rec : Sem0} (hap : AP rec) (k : Nat) (hsk : SkipSim g inp g' r
       rw [hr] at t1 hne
       simp only [] at hne
       have a1 : s1.atomic = a := by rw [hap _ _ _ _ hr, ha]
+      have p1 : s1.pos ≤ inp.size := hpb _ _ _ _ hp hr
       by_cases hre : rest.isEmpty = true
       · simp only [hre, ↓reduceIte]
         exact t1.mono fun n hn => by rw [hn]
       · simp only [hre, Bool.false_eq_true, ↓reduceIte] at hne ⊢
         have h2 : skip g rec k s1 ≠ .oof := by intro x; rw [x] at hne; exact hne rfl
-        have t2 := hsk s1 h2
+        have t2 := hsk s1 p1 h2
         cases hs : skip g rec k s1 with
         | oof => exact absurd hs h2
         | stuck =>
@@ -862,27 +864,27 @@ theorem seqL_sim {rec : Sem0} (hap : AP rec) (k : Nat) (hsk : SkipSim g inp g' r
         | fail =>
           rw [hs] at t2 hne
           simp only [] at hne
-          have t3 := ih s1 _ a1 hne
+          have t3 := ih s1 _ a1 p1 hne
           exact ((t1.and t2).and t3).mono fun n hn => by rw [hn.1.1]; simp only [hn.1.2]; exact hn.2
         | ok s2 tps =>
           rw [hs] at t2 hne
           simp only [] at hne
-          have a2 : s2.atomic = a := by rw [skip_atomic g _ _ _ _ _ hs, a1]
-          have t3 := ih s2 _ a2 hne
+          have a2 : s2.atomic = a := by rw [skip_atomicO g _ _ _ _ _ hs, a1]
+          have t3 := ih s2 _ a2 (skip_pos g inp hpb _ _ _ _ p1 hs) hne
           exact ((t1.and t2).and t3).mono fun n hn => by rw [hn.1.1]; simp only [hn.1.2]; exact hn.2
 
-theorem choiceL_sim {rec : Sem0} (a : Bool) :
+theorem choiceL_simO {rec : Sem0} (a : Bool) :
     ∀ (es es' : List Expr), All2 (SimAt inp g' rec a) es es' →
-      ∀ (s : S0), s.atomic = a → choiceL rec es s ≠ .oof →
+      ∀ (s : S0), s.atomic = a → s.pos ≤ inp.size → choiceL rec es s ≠ .oof →
         Evt (fun n => choiceL (run g' inp n) es' s = choiceL rec es s) := by
   intro es es' hes
   induction hes with
-  | nil => intro s _ _; exact Evt.const rfl
+  | nil => intro s _ _ _; exact Evt.const rfl
   | @cons e e' rest rest' he hrest ih =>
-    intro s ha hne
+    intro s ha hp hne
     simp only [choiceL] at hne ⊢
     have h1 : rec e s ≠ .oof := by intro x; rw [x] at hne; exact hne rfl
-    have t1 := he s ha h1
+    have t1 := he s ha hp h1
     cases hr : rec e s with
     | oof => exact absurd hr h1
     | ok s1 ps => rw [hr] at t1; exact t1.mono fun n hn => by rw [hn]
@@ -890,19 +892,19 @@ theorem choiceL_sim {rec : Sem0} (a : Bool) :
     | fail =>
       rw [hr] at t1 hne
       simp only [] at hne
-      have t2 := ih s ha hne
+      have t2 := ih s ha hp hne
       exact (t1.and t2).mono fun n hn => by rw [hn.1]; exact hn.2
 
-theorem repLoop_sim {rec : Sem0} (hap : AP rec) (kk : Nat) (hsk : SkipSim g inp g' rec kk) (a : Bool)
-    (e e' : Expr) (he : SimAt inp g' rec a e e') :
-    ∀ (k : Nat) (first : Bool) (s : S0) (acc : List Pair), s.atomic = a →
+theorem repLoop_simO {rec : Sem0} (hap : AP rec) (hpb : PB inp rec) (kk : Nat) (hsk : SkipSim g inp g' rec kk)
+    (a : Bool) (e e' : Expr) (he : SimAt inp g' rec a e e') :
+    ∀ (k : Nat) (first : Bool) (s : S0) (acc : List Pair), s.atomic = a → s.pos ≤ inp.size →
       repLoop g rec e k kk first s acc ≠ .oof →
       Evt2 (fun n k' => repLoop g' (run g' inp n) e' k' n first s acc = repLoop g rec e k kk first s acc) := by
   intro k
   induction k with
-  | zero => intro first s acc _ hne; exact absurd rfl hne
+  | zero => intro first s acc _ _ hne; exact absurd rfl hne
   | succ k ih =>
-    intro first s acc ha hne
+    intro first s acc ha hp hne
     simp only [repLoop] at hne
     have hsk1 : Evt (fun n => (if first = true then R0.ok s [] else skip g' (run g' inp n) n s)
         = (if first = true then R0.ok s [] else skip g rec kk s)) := by
@@ -910,7 +912,7 @@ theorem repLoop_sim {rec : Sem0} (hap : AP rec) (kk : Nat) (hsk : SkipSim g inp 
       · simp only [hf, ↓reduceIte]; exact Evt.const trivial
       · simp only [hf, Bool.false_eq_true, ↓reduceIte] at hne ⊢
         have : skip g rec kk s ≠ .oof := by intro x; rw [x] at hne; exact hne rfl
-        exact hsk s this
+        exact hsk s hp this
     obtain ⟨N1, e1⟩ := hsk1
     cases hs : (if first = true then R0.ok s [] else skip g rec kk s) with
     | oof => rw [hs] at hne; exact absurd rfl hne
@@ -929,11 +931,16 @@ theorem repLoop_sim {rec : Sem0} (hap : AP rec) (kk : Nat) (hsk : SkipSim g inp 
         by_cases hf : first = true
         · simp only [hf, ↓reduceIte, R0.ok.injEq] at hs; rw [← hs.1, ha]
         · simp only [hf, Bool.false_eq_true, ↓reduceIte] at hs
-          rw [skip_atomic g _ _ _ _ _ hs, ha]
+          rw [skip_atomicO g _ _ _ _ _ hs, ha]
+      have p1 : s1.pos ≤ inp.size := by
+        by_cases hf : first = true
+        · simp only [hf, ↓reduceIte, R0.ok.injEq] at hs; rw [← hs.1]; exact hp
+        · simp only [hf, Bool.false_eq_true, ↓reduceIte] at hs
+          exact skip_pos g inp hpb _ _ _ _ hp hs
       rw [hs] at e1 hne
       simp only [] at hne
       have h2 : rec e s1 ≠ .oof := by intro x; rw [x] at hne; exact hne rfl
-      obtain ⟨N2, e2⟩ := he s1 a1 h2
+      obtain ⟨N2, e2⟩ := he s1 a1 p1 h2
       cases hr : rec e s1 with
       | oof => exact absurd hr h2
       | fail =>
@@ -949,7 +956,7 @@ theorem repLoop_sim {rec : Sem0} (hap : AP rec) (kk : Nat) (hsk : SkipSim g inp 
       | ok s2 ps =>
         rw [hr] at e2 hne
         have a2 : s2.atomic = a := by rw [hap _ _ _ _ hr, a1]
-        obtain ⟨N3, e3⟩ := ih false s2 _ a2 hne
+        obtain ⟨N3, e3⟩ := ih false s2 _ a2 (hpb _ _ _ _ p1 hr) hne
         refine ⟨N1 + N2 + N3 + 1, fun n k' hn hk => ?_⟩
         obtain ⟨k'', rfl⟩ : ∃ m, k' = m + 1 := ⟨k' - 1, by omega⟩
         simp only [repLoop, hs, hr, e1 n (by omega), e2 n (by omega)]
@@ -1007,27 +1014,27 @@ theorem step_seqView (k : Nat) (rec : Sem0) {e : Expr} {es : List Expr} (h : seq
 
 /-- `e` and `e'` have the same root (or are both sequence-like) and `R`-related children; `R` is
     indexed by the atomicity flag of the states in which the children run -/
-inductive Cong (R : Bool → Expr → Expr → Prop) : Bool → Expr → Expr → Prop
-  | term {a e} : isTerm e = true → Cong R a e e
+inductive CongO (R : Bool → Expr → Expr → Prop) : Bool → Expr → Expr → Prop
+  | term {a e} : isTerm e = true → CongO R a e e
   | ident {a n t t'} :
       (match g.lookup n, g'.lookup n with
        | none, none => True
        | some x, some x' => x'.name = x.name ∧ x'.mod = x.mod ∧
            R (ruleAtomic x.name x.mod a) x.body x'.body
-       | _, _ => False) → Cong R a (.ident n t) (.ident n t')
-  | rule {a n m sm sm' b b'} : R (ruleAtomic n m a) b b' → Cong R a (.rule n m sm b) (.rule n m sm' b')
-  | seqlike {a e e' es es'} : seqView e = some es → seqView e' = some es' → All2 (R a) es es' → Cong R a e e'
-  | choice {a es es'} : All2 (R a) es es' → Cong R a (.choice es) (.choice es')
-  | opt {a e e'} : R a e e' → Cong R a (.opt e) (.opt e')
-  | rep {a e e'} : R a e e' → Cong R a (.rep e) (.rep e')
-  | andP {a e e'} : R a e e' → Cong R a (.andP e) (.andP e')
-  | notP {a e e'} : R a e e' → Cong R a (.notP e) (.notP e')
-  | group {a e e' t t'} : R a e e' → Cong R a (.group e t) (.group e' t')
-  | push {a e e'} : R a e e' → Cong R a (.push e) (.push e')
+       | _, _ => False) → CongO R a (.ident n t) (.ident n t')
+  | rule {a n m sm sm' b b'} : R (ruleAtomic n m a) b b' → CongO R a (.rule n m sm b) (.rule n m sm' b')
+  | seqlike {a e e' es es'} : seqView e = some es → seqView e' = some es' → All2 (R a) es es' → CongO R a e e'
+  | choice {a es es'} : All2 (R a) es es' → CongO R a (.choice es) (.choice es')
+  | opt {a e e'} : R a e e' → CongO R a (.opt e) (.opt e')
+  | rep {a e e'} : R a e e' → CongO R a (.rep e) (.rep e')
+  | andP {a e e'} : R a e e' → CongO R a (.andP e) (.andP e')
+  | notP {a e e'} : R a e e' → CongO R a (.notP e) (.notP e')
+  | group {a e e' t t'} : R a e e' → CongO R a (.group e t) (.group e' t')
+  | push {a e e'} : R a e e' → CongO R a (.push e) (.push e')
 
-theorem cong_sim {rec : Sem0} (hap : AP rec) (k : Nat) (hsk : SkipSim g inp g' rec k)
+theorem cong_sim {rec : Sem0} (hap : AP rec) (hpb : PB inp rec) (k : Nat) (hsk : SkipSim g inp g' rec k)
     (hu : g'.usets = g.usets) {a : Bool} {e e' : Expr}
-    (h : Cong g g' (SimAt inp g' rec) a e e') (s : S0) (ha : s.atomic = a)
+    (h : CongO g g' (SimAt inp g' rec) a e e') (s : S0) (ha : s.atomic = a) (hp : s.pos ≤ inp.size)
     (hne : step g inp k rec e s ≠ .oof) : Tgt inp g' e' s (step g inp k rec e s) := by
   apply Tgt.of_step
   cases h with
@@ -1048,38 +1055,38 @@ theorem cong_sim {rec : Sem0} (hap : AP rec) (k : Nat) (hsk : SkipSim g inp g' r
         rw [h1] at hne
         simp only [] at hne ⊢
         rw [← ha] at e3
-        refine (ruleApply_sim inp g' x.name x.mod x.body x'.body s e3 hne).mono ?_
+        refine (ruleApply_simO inp g' x.name x.mod x.body x'.body s e3 hp hne).mono ?_
         intro n hn
         rw [e1, e2, hn]
   | rule hb =>
     rw [← ha] at hb
-    exact ruleApply_sim inp g' _ _ _ _ s hb hne
+    exact ruleApply_simO inp g' _ _ _ _ s hb hp hne
   | seqlike h1 h2 hes =>
     rw [step_seqView g inp k rec h1] at hne ⊢
-    refine (seqL_sim g inp g' hap k hsk a _ _ hes s [] ha hne).mono ?_
+    refine (seqL_simO g inp g' hap hpb k hsk a _ _ hes s [] ha hp hne).mono ?_
     intro n hn
     rw [step_seqView g' inp n _ h2, hn]
-  | choice hes => exact choiceL_sim inp g' a _ _ hes s ha hne
+  | choice hes => exact choiceL_simO inp g' a _ _ hes s ha hp hne
   | @opt e e' he =>
     simp only [step] at hne ⊢
     have h1 : rec e s ≠ .oof := by intro x; rw [x] at hne; exact hne rfl
-    exact (he s ha h1).mono fun n hn => by rw [hn]
-  | @rep e e' he => exact (repLoop_sim g inp g' hap k hsk a e e' he k true s [] ha hne).diag
+    exact (he s ha hp h1).mono fun n hn => by rw [hn]
+  | @rep e e' he => exact (repLoop_simO g inp g' hap hpb k hsk a e e' he k true s [] ha hp hne).diag
   | @andP e e' he =>
     simp only [step] at hne ⊢
     have h1 : rec e s ≠ .oof := by intro x; rw [x] at hne; exact hne rfl
-    exact (he s ha h1).mono fun n hn => by rw [hn]
+    exact (he s ha hp h1).mono fun n hn => by rw [hn]
   | @notP e e' he =>
     simp only [step] at hne ⊢
     have h1 : rec e s ≠ .oof := by intro x; rw [x] at hne; exact hne rfl
-    exact (he s ha h1).mono fun n hn => by rw [hn]
+    exact (he s ha hp h1).mono fun n hn => by rw [hn]
   | @group e e' t t' he =>
     simp only [step] at hne ⊢
-    exact he s ha hne
+    exact he s ha hp hne
   | @push e e' he =>
     simp only [step] at hne ⊢
     have h1 : rec e s ≠ .oof := by intro x; rw [x] at hne; exact hne rfl
-    exact (he s ha h1).mono fun n hn => by rw [hn]
+    exact (he s ha hp h1).mono fun n hn => by rw [hn]
 
 end L0
 end Pest
